@@ -209,11 +209,14 @@ class _MaskedArrayFunc(object):
 
         # transform back to numpy array
         if np.ma.isMaskedArray(result):
-            if result.dtype.kind == 'b':
+            if self.__name__ in ('all', 'any'):
                 # all / any of nothing: the identity of the reduction (NaN would be cast to True)
-                result = result.filled(self.__name__ == 'all')
+                # (a fully masked scalar result is the float constant np.ma.masked)
+                result = np.asarray(result.filled(self.__name__ == 'all'), dtype=bool)
             else:
                 result = result.filled(np.nan)
+            if result.ndim == 0:
+                result = result[()] # a scalar, as numpy returns
 
         return result
 
